@@ -70,11 +70,14 @@ def run_connection(spec, fates, default=None, overs=(), lifetime=True, label="",
     net.install(scp_connection)
     try:
         conn = SCPConnection("virtual-host", n_tries=spec["tries"], timeout=net.seconds(spec["t0"]))
-        if spec["seqmod"] != REAL_SEQMOD:
-            conn.seq = scp_connection.seqs(mask=spec["seqmod"] - 1)
-        # "always terminates", observed: drawing more sequence numbers than exist without transmitting anything in
-        # between means the client is searching a sequence space it has itself filled - it would search for ever
-        conn.seq = _guarded_seqs(conn.seq, net, spec["seqmod"] + 8)
+        # (the connection keeps its sequence-number stream in the attribute `seq`; a connection that keeps it
+        # elsewhere cannot be given a reduced sequence space or the search guard, and is judged as it is)
+        if hasattr(conn, "seq"):
+            if spec["seqmod"] != REAL_SEQMOD:
+                conn.seq = scp_connection.seqs(mask=spec["seqmod"] - 1)
+            # "always terminates", observed: drawing more sequence numbers than exist without transmitting anything
+            # in between means the client is searching a sequence space it has itself filled - it would search for ever
+            conn.seq = _guarded_seqs(conn.seq, net, spec["seqmod"] + 8)
         for b, bs in enumerate(spec["bursts"], 1):
             ev.append(["burst", b])
 
